@@ -8,6 +8,7 @@ import (
 
 	"github.com/scionproto/scion/control/beaconing"
 	"github.com/scionproto/scion/control/ifstate"
+	"github.com/scionproto/scion/pkg/addr"
 	"github.com/scionproto/scion/pkg/private/util"
 	"github.com/scionproto/scion/pkg/scrypto"
 	"github.com/scionproto/scion/pkg/scrypto/cppki"
@@ -221,6 +222,26 @@ func CombFamily(level int) []*Topo {
 		b.link(c2, t, ParentChild)
 		return [][2]int{{m2, q}}
 	}})
+	// three ISDs in a chain of cores (core segments through a foreign core), a two-level tree below the outer cores,
+	// peering across ISDs: the shape whose AS numbers are re-used per ISD by ShareASNumbers
+	shapes = append(shapes, shape{"3isd-chain", func(b *builder) [][2]int {
+		c1 := b.as("1-ff00:0:110", true)
+		c2 := b.as("2-ff00:0:210", true)
+		c3 := b.as("3-ff00:0:310", true)
+		a := b.as("1-ff00:0:111", false)
+		g := b.as("1-ff00:0:112", false)
+		m := b.as("2-ff00:0:211", false)
+		bb := b.as("3-ff00:0:311", false)
+		h := b.as("3-ff00:0:312", false)
+		b.link(c1, c2, CoreLink)
+		b.link(c2, c3, CoreLink)
+		b.link(c1, a, ParentChild)
+		b.link(a, g, ParentChild)
+		b.link(c2, m, ParentChild)
+		b.link(c3, bb, ParentChild)
+		b.link(bb, h, ParentChild)
+		return [][2]int{{a, bb}, {g, m}}
+	}})
 	if level > 0 {
 		// two cores with parallel core links and a three-level multi-homed tree with peering between the subtrees
 		shapes = append(shapes, shape{"2core-deep-peer", func(b *builder) [][2]int {
@@ -279,5 +300,33 @@ func CombFamily(level int) []*Topo {
 			}
 		}
 	}
+	// AS numbers are only unique within an ISD: every multi-ISD member also with the k-th AS of every ISD sharing one
+	// AS number (quick: the members with global interface numbering only)
+	for _, t := range append([]*Topo(nil), out...) {
+		if level == 0 && strings.HasSuffix(t.Name, "/local-ifids") {
+			continue
+		}
+		if s := t.ShareASNumbers(); s != nil {
+			out = append(out, s)
+		}
+	}
 	return out
+}
+
+// ShareASNumbers returns a copy of the topology in which the k-th AS (in declaration order) of every ISD gets the AS
+// number ff00:0:k+1, so that ASes of different ISDs share AS numbers (1-ff00:0:1 and 2-ff00:0:1 are different ASes);
+// nil if the topology has a single ISD.
+func (t *Topo) ShareASNumbers() *Topo {
+	c := t.Clone()
+	perISD := map[addr.ISD]int{}
+	for i := range c.ASes {
+		isd := c.ASes[i].IA.ISD()
+		perISD[isd]++
+		c.ASes[i].IA = addr.MustIAFrom(isd, addr.AS(0xff00_0000_0000+perISD[isd]))
+	}
+	if len(perISD) < 2 {
+		return nil
+	}
+	c.Name = t.Name + "/shared-as-numbers"
+	return c
 }
